@@ -100,7 +100,7 @@ def run(ctx):
     tasks = []
     up_, down = list(range(2, 13)), list(range(12, 1, -1))
     for N in (2, 3, 4, 5):
-        for bx in BOXES + ("Z", "D", "E", "S", "F"):
+        for bx in BOXES + ("Z", "D", "E", "S", "F", "T", "U"):
             for env in ("lin", "abs13", "const"):
                 for ms in (up_, down):
                     for mode in ("seq", "pair", "probe") + (("positional", "refine") if bx in ("B1", "D") else ()):
